@@ -377,3 +377,21 @@ package node
 //@   requires [called_from_callback] owner(p) == me && fin(p) == 0
 //@   ensures [state_restored_or_terminated] result.1 != gen.ErrProcessTerminated && result.1 != gen.ErrNotAllowed ==> owner(p) == me
 //@   ensures [still_owner] owner(p) == me
+
+// by-alias route: the alias may name a meta process of p (then the message goes to the meta's own
+// main queue and the meta is woken) or p itself (same clauses as the by-id route, incl. fallback)
+//@ ghostheap mwoken(m *meta) int
+//@ func (m *meta) handle
+//@   trusted
+//@   modifies mwoken(m)
+//@   ensures mwoken(m) == old(mwoken(m)) + 1
+//@ iface gen.Connection.SendAlias
+//@ spec func aliasesWF(n *node) bool = forall k any :: smHas(n.aliases, k) ==> typeis(smVal(n.aliases, k), *process) && smVal(n.aliases, k).(*process) != nil && mailboxWF(smVal(n.aliases, k).(*process)) && (forall a any :: smHas(smVal(n.aliases, k).(*process).metas, a) ==> typeis(smVal(smVal(n.aliases, k).(*process).metas, a), *meta) && smVal(smVal(n.aliases, k).(*process).metas, a).(*meta) != nil && smVal(smVal(n.aliases, k).(*process).metas, a).(*meta).main != nil)
+//@ spec func procByAlias(n *node, a gen.Alias) *process = smVal(n.aliases, any(a)).(*process)
+//@ func (n *node) RouteSendAlias
+//@   props C02 C03
+//@   requires [tables] aliasesWF(n) && namesWF(n)
+//@   ensures [accepted_meta] result == nil && to.Node == n.name && n.creation > 0 && smHas(procByAlias(n, to).metas, any(to)) ==> pushed(smVal(procByAlias(n, to).metas, any(to)).(*meta).main) == old(pushed(smVal(procByAlias(n, to).metas, any(to)).(*meta).main)) + 1 && mwoken(smVal(procByAlias(n, to).metas, any(to)).(*meta)) == old(mwoken(smVal(procByAlias(n, to).metas, any(to)).(*meta))) + 1
+//@   ensures [accepted_process] result == nil && to.Node == n.name && n.creation > 0 && !smHas(procByAlias(n, to).metas, any(to)) ==> smHas(n.aliases, any(to)) && (pushed(prioQueue(procByAlias(n, to), options.Priority)) == old(pushed(prioQueue(procByAlias(n, to), options.Priority))) + 1 && woken(procByAlias(n, to)) == old(woken(procByAlias(n, to))) + 1 || procByAlias(n, to).fallback.Enable)
+//@   ensures [refused_nothing_pushed] result != nil && to.Node == n.name ==> (forall q lib.QueueMPSC :: pushed(q) == old(pushed(q))) && (forall x *process :: woken(x) == old(woken(x))) && (forall m *meta :: mwoken(m) == old(mwoken(m)))
+//@   ensures [unknown_alias] n.creation > 0 && to.Node == n.name && !smHas(n.aliases, any(to)) ==> result == gen.ErrProcessUnknown
